@@ -119,3 +119,60 @@ def try_cells(f, ctx):
         return f(ctx)
     except Undecided:
         return None
+
+
+def varint_cells(ctx):
+    """helper.encode_varint / read_varint / encode_varstr / read_varstr against Bitcoin's compact size, on every width boundary and its
+    neighbours (0, 1, 0xfc | 0xfd, 0xfe, 0xffff | 0x10000, 0xffffffff | 0x100000000, 2^64-1) and one value inside each width: the encoder
+    writes the CANONICAL (shortest) form, the reader inverts it and consumes exactly those bytes; 2^64 is refused.  Complete in the width
+    classes; the codec looks at the value only through comparisons with the boundaries and fixed-width conversions"""
+    spec_e, spec_d = "helper:encode_varint", "helper:read_varint"
+    mod, fn = rl.get(ctx, spec_e)
+    mod2, fn2 = rl.get(ctx, spec_d)
+    from sa.cells import FileStandIn
+
+    def ref(i):
+        if i < 0xFD:
+            return bytes([i])
+        if i <= 0xFFFF:
+            return b"\xfd" + i.to_bytes(2, "little")
+        if i <= 0xFFFFFFFF:
+            return b"\xfe" + i.to_bytes(4, "little")
+        return b"\xff" + i.to_bytes(8, "little")
+    vals = [0, 1, 0x7F, 0xFB, 0xFC, 0xFD, 0xFE, 0xFF, 0x100, 0x1234, 0xFFFE, 0xFFFF, 0x10000, 0x10001, 0x12345678, 0xFFFFFFFE, 0xFFFFFFFF, 0x100000000, 0x100000001,
+            0x123456789ABCDEF0, 2 ** 64 - 2, 2 ** 64 - 1]
+    n = 0
+    for v in vals:
+        n += 1
+        try:
+            got = Evaluator(ctx.repo).call(spec_e, [v])
+        except Raised as x:
+            return [ctx.bad(spec_e, "encode_varint(%#x) raises %s" % (v, x.name), fn, mod, key="compact-size")]
+        if got != ref(v):
+            return [ctx.bad(spec_e, "encode_varint(%#x) is %s, the canonical compact size is %s" % (v, got.hex() if isinstance(got, bytes) else got, ref(v).hex()), fn, mod, key="compact-size")]
+        s_ = FileStandIn(ref(v) + b"\xaa\xbb")
+        try:
+            back = Evaluator(ctx.repo).call(spec_d, [s_])
+        except Raised as x:
+            return [ctx.bad(spec_d, "read_varint of %s raises %s" % (ref(v).hex(), x.name), fn2, mod2, key="compact-size")]
+        if back != v or s_.pos != len(ref(v)):
+            return [ctx.bad(spec_d, "read_varint of %s gives %r and consumes %d byte(s); the value is %#x in %d byte(s)" % (ref(v).hex(), back, s_.pos, v, len(ref(v))), fn2, mod2,
+                            key="compact-size")]
+    try:
+        Evaluator(ctx.repo).call(spec_e, [2 ** 64])
+        return [ctx.bad(spec_e, "encode_varint(2^64) does not raise", fn, mod, key="compact-size")]
+    except Raised:
+        pass
+    for ln in (0, 1, 0xFC, 0xFD, 0x1234):
+        n += 1
+        data = bytes((i * 3 + 1) & 255 for i in range(ln))
+        got = Evaluator(ctx.repo).call("helper:encode_varstr", [data])
+        if got != ref(ln) + data:
+            return [ctx.bad("helper:encode_varstr", "encode_varstr of %d bytes is not compact size ‖ bytes" % ln, fn, mod, key="compact-size")]
+        s_ = FileStandIn(got + b"\x99")
+        back = Evaluator(ctx.repo).call("helper:read_varstr", [s_])
+        if back != data or s_.pos != len(got):
+            return [ctx.bad("helper:read_varstr", "read_varstr does not invert encode_varstr for %d bytes" % ln, fn2, mod2, key="compact-size")]
+    ctx.count("cells", n)
+    return [ctx.ok(spec_e, "%d values on and around every width boundary are written in canonical compact size and read back, consuming exactly their bytes" % len(vals), fn, mod,
+                   key="compact-size")]
